@@ -1686,7 +1686,7 @@ theorem C08Hyps_of_loaded {s : Schema} {d : QueryDoc} (L : LoadedHyps s) (D : C0
     usePos := D.usePos }
 
 /-- **the C08 capstone for a loaded schema**: the schema-side hypotheses are discharged by the loader -/
-theorem loaded_default_rules_iff_spec_partial {sd : SchemaDoc} {s : Schema} (h : load sd = .ok s)
+theorem C08_loaded_default_rules_iff_spec_partial {sd : SchemaDoc} {s : Schema} (h : load sd = .ok s)
     (hp : PreludeDeclared sd) (hks : KindFieldless .scalar sd) (hke : KindFieldless .enum sd) (hn : NamesNonEmpty sd)
     (hroots : Gql.Spec.rootTypesAreObjects s = true) (d : QueryDoc) (D : C08DocHyps s d) :
     validate c08Rules s d = .ok [] ↔
